@@ -24,9 +24,10 @@ META = {
     "phases": [{"name": "main", "flavour": "P", "shards": 16}],
     "gates": {
         "quick": {"evaluations": 200000, "events_replayed": 50000, "failures_checked": 20000,
-                  "slice_events": 2000, "history_ops": 20000},
+                  "slice_events": 2000, "history_ops": 20000, "unwatched_evaluations": 30000},
         "thorough": {"evaluations": 10000000, "events_replayed": 3000000, "failures_checked": 1000000,
-                     "slice_events": 100000, "history_ops": 3000000},
+                     "slice_events": 100000, "history_ops": 3000000,
+                     "unwatched_evaluations": 800000},
     },
     "exhaustive_parts": "all single operations on lists of length 0..5 (quick) / 0..8 (thorough) "
                         "over the index/slice/replacement grid described in rule",
@@ -46,6 +47,24 @@ class V:
 
     def __lt__(self, other):
         return self.n < other.n
+
+
+class VN(V):
+    """an item that is not equal to anything, itself included (NaN-like): list finds it by
+    identity only"""
+    __slots__ = ()
+
+    def __eq__(self, other):
+        return False
+
+    __hash__ = object.__hash__
+
+    def __repr__(self):
+        return "vn%d" % self.n
+
+
+def mkitem(i):
+    return VN(i) if i % 3 == 2 else V(i)
 
 
 BAD = "BAD"
@@ -101,6 +120,9 @@ def v_tlo(x):
 
 FLAVOURS = {
     "none": v_none, "reject": v_reject, "coerce": v_coerce, "tlo": v_tlo, "inc": v_inc,
+    # the same validators on lists NOBODY listens to (judged on contents / return value /
+    # exception class / failure atomicity only)
+    "q-reject": v_reject, "q-coerce": v_coerce,
 }
 
 
@@ -112,6 +134,14 @@ def make(flavour, items, events):
         tl = h.xs
         tl.notifiers.append(rec)
         return tl, h
+    if flavour.startswith("q-"):
+        tl = TraitList(items, item_validator=FLAVOURS[flavour])
+        if flavour == "q-coerce":
+            import copy as _copy
+            import pickle as _pickle
+            # a copy (notifiers dropped, validator kept) continued as the main object
+            tl = _pickle.loads(_pickle.dumps(tl)) if len(items) % 2 else _copy.copy(tl)
+        return tl, None
     if flavour == "none":
         return TraitList(items, notifiers=[rec]), None
     return TraitList(items, item_validator=FLAVOURS[flavour], notifiers=[rec]), None
@@ -294,7 +324,12 @@ def check_one(ctx, flavour, tl, model, op, events, holder=None):
     changed = [id(x) for x in after] != [id(x) for x in before]
     if rr[0] == "exc":
         ctx.count("failures_checked")
-    if complaint is None:
+    quiet = flavour.startswith("q-")
+    if quiet:
+        ctx.count("unwatched_evaluations")
+        if len(getattr(tl, "notifiers", ())) != 0:
+            complaint = complaint or "notifier-appeared-on-unwatched-list"
+    if complaint is None and not quiet:
         if changed and len(events) != 1:
             complaint = "changed-with-%s-events" % ("no" if not events else "several")
         else:
@@ -337,7 +372,7 @@ def single_ops(L, flavour):
     idxs = list(range(-L - 2, L + 3))
     se = [None] + idxs
     steps = [None, 0, 1, -1, 2, -2, 3, -3, L + 1, -(L + 1)]
-    coerce = flavour == "coerce"
+    coerce = flavour.endswith("coerce")
 
     def new(k):
         if coerce:
@@ -399,7 +434,7 @@ def single_ops(L, flavour):
 
 
 def random_op(rng, L, flavour):
-    coerce = flavour == "coerce"
+    coerce = flavour.endswith("coerce")
     has_bad = flavour != "none"
 
     def item():
@@ -489,9 +524,9 @@ def run(ctx):
     events = []
     # ---- exhaustive single operations -----------------------------------
     gi = 0
-    for flavour in ("reject", "coerce", "none", "tlo", "inc"):
+    for flavour in ("reject", "coerce", "none", "tlo", "inc", "q-reject", "q-coerce"):
         for L in range(0, Lmax + 1):
-            if flavour in ("none", "inc") and L > Lmax - 1:
+            if flavour in ("none", "inc", "q-reject", "q-coerce") and L > Lmax - 1:
                 continue
             batch = []
             for op in single_ops(L, flavour):
@@ -502,7 +537,7 @@ def run(ctx):
                 continue
             try:
                 for op in batch:
-                    items = [V(i) for i in range(L)]
+                    items = [mkitem(i) for i in range(L)]
                     tl, holder = make(flavour, items, events)
                     model = list(tl)          # the validated initial items
                     check_one(ctx, flavour, tl, model, op, events, holder)
@@ -520,9 +555,10 @@ def run(ctx):
             continue
         try:
             rng = ctx.rng("hist", h)
-            flavour = rng.choice(["reject", "coerce", "tlo", "reject", "coerce", "none", "inc"])
+            flavour = rng.choice(["reject", "coerce", "tlo", "reject", "coerce", "none", "inc",
+                                  "q-reject", "q-coerce"])
             L0 = rng.randint(0, 6)
-            items = [V(i) for i in range(L0)]
+            items = [mkitem(i) for i in range(L0)]
             if L0 > 2 and rng.random() < 0.3:
                 items[1] = items[0]          # duplicates: remove/index semantics
             tl, holder = make(flavour, items, events)
